@@ -138,23 +138,28 @@ def _tlc_expected(ctx, traces):
 
 
 def _diff_fields(exp, obs):
+    """Names of the fields in which an observation differs from Mail!Expected (wording of the
+    violation only; the verdict is TLC's).  Differences that a DON'T-CARE of Mail.tla may cover
+    are listed only when nothing else differs."""
     if not exp or not isinstance(obs, dict):
         return ["?"]
-    d = [k for k in ("subj", "from", "to", "cc", "bcc", "rt", "date", "mid", "irt", "plain", "html") if exp.get(k) != obs.get(k)
-         and not (k == "plain" and obs.get(k, [""])[0] == "plainesc")]       # DC4 (diagnostic only)
-    ea, oa = exp.get("atts", []), [a for a in obs.get("atts", []) if a["bytes"][0] != "inline"]
+    hard, soft = [], []
+    for k in ("subj", "from", "to", "cc", "bcc", "rt", "date", "mid", "irt", "plain", "html"):
+        if exp.get(k) != obs.get(k):
+            (soft if k == "plain" and obs.get(k, [""])[0] == "plainesc" else hard).append(k)      # DC4
+    ea, oa = exp.get("atts", []), [a for a in obs.get("atts", []) if a["bytes"][0] != "inline"]     # DC6
     if len(ea) != len(oa):
-        d.append(f"atts(count {len(oa)} for {len(ea)})")
+        hard.append(f"atts(count {len(oa)} for {len(ea)})")
     else:
         for j, (e, o) in enumerate(zip(ea, oa), 1):
             for k in ("name", "type", "bytes", "sup", "supp"):
-                if k == "name" and e[k][0] == "-":                       # DC5 (diagnostic only)
+                if e[k] == o[k]:
                     continue
-                if k == "bytes" and o[k][0] == "bytesnl" and o[k][1:] == e[k][1:]:   # DC8 (diagnostic only)
-                    continue
-                if e[k] != o[k]:
-                    d.append(f"att{j}.{k}")
-    return d or ["(accepted fields; see obs)"]
+                if (k == "name" and e[k][0] == "-") or (k == "bytes" and o[k][0] == "bytesnl" and o[k][1:] == e[k][1:]):
+                    soft.append(f"att{j}.{k}")                                                      # DC5 / DC8
+                else:
+                    hard.append(f"att{j}.{k}")
+    return hard or soft or ["(see observation)"]
 
 
 def run(ctx):
@@ -195,7 +200,7 @@ def run(ctx):
     ctx.log(f"{len(msgs)} abstract messages, {len(seqs)} line-class sequences ({time.time() - ev.t0:.1f}s)")
 
     # ------------------------------------------------------------------ 3. replay (while the theorem runs finish)
-    nvar = 3 if ctx.thorough else 1
+    nvar = 5 if ctx.thorough else 1
     items = [{"id": f"{_case_id(m)}.{k}", "m": m} for m in msgs for k in range(nvar)]
     line_items = [{"lines": list(ls), "fin": fin, "eol": eol} for (ls, fin) in seqs for eol in ("LF", "CRLF")]
     t0 = time.time()
@@ -203,7 +208,9 @@ def run(ctx):
     f2 = pool.submit(_run_workers, ctx, "lines", line_items, None, 6)
     f3 = pool.submit(_run_workers, ctx, "fixtures", [list(f) for f in FIXTURES])
     mail_out, line_out, fix_out = f1.result(), f2.result(), f3.result()
-    ctx.log(f"replay done in {time.time() - t0:.1f}s: {len(mail_out)} message cases, {len(line_out)} mailboxes")
+    nfb = sum(1 for o in mail_out if o.get("fallback"))
+    ctx.log(f"replay done in {time.time() - t0:.1f}s: {len(mail_out)} message cases ({nfb} written by hand because the "
+            f"stdlib generator failed its self-test), {len(line_out)} mailboxes")
 
     r = f_thm.result()
     ev.tlc(f"Mbox: splitter model = declarative boundaries, all line-class sequences len <= {maxlen}", r)
@@ -260,14 +267,14 @@ def run(ctx):
             else:
                 still.append(i)
         groups = {}
-        exp = _tlc_expected(ctx, [traces[i] for i in still[:400]]) if still else {}
+        exp = _tlc_expected(ctx, [traces[i] for i in still[:2500]]) if still else {}
         for k, i in enumerate(still):
             it, path, e, o = meta[i]
             if path == "fixture":
                 sig = ("fixture", it["id"])
                 what = f"fixture {it['id']}: field-presence clause rejected: {e[0].get('p')}"
             elif e["a"] == "Raised":
-                sig = (path, "raised", e["exc"].split(":")[0])
+                sig = (path, "raised", ":".join(e["exc"].split(":")[:2]))
                 what = f"{path} extraction raised {e['exc']}"
             elif e["a"] == "Mbox" and e["nres"] != e["n"]:
                 sig = (path, "count")
@@ -282,7 +289,7 @@ def run(ctx):
             it, path, e, o = meta[i]
             v.violation(what=f"{what}  [{len(lst)} cases; first: {it['id']}]",
                         case={"m": it["m"], "path": path, "eml_b64": o.get("eml_b64"), "others": [meta[j][0]["id"] for j, _, _ in lst[1:20]]},
-                        expected=ex, observed=e.get("obs", e),
+                        expected=ex, observed=e.get("obs", e) if isinstance(e, dict) else e,
                         where="eml_email_extractor.py:_read_eml_format" if path == "eml" else
                               "mbox_email_extractor.py:parse_email_message/_split_mbox_messages" if path == "mbox" else
                               "msg_email_extractor.py:read_msg_format_mail")
@@ -309,7 +316,7 @@ def run(ctx):
         if e["a"] == "Split":
             sig, what = "split", f"_split_mbox_messages: blocks {e['split']} are not the messages of line classes {it['lines']}"
         elif e.get("exc"):
-            sig, what = "read-raised:" + e["exc"].split(":")[0], f"read_mbox_format_mail raised {e['exc']} on line classes {it['lines']}"
+            sig, what = "read-raised:" + ":".join(e["exc"].split(":")[:2]), f"read_mbox_format_mail raised {e['exc']} on line classes {it['lines']}"
         else:
             sig, what = "read", f"read_mbox_format_mail: {e['n']} results showing lines {e['toks']} for line classes {it['lines']}"
         lgroups.setdefault(sig, []).append((it, o, what, e))
@@ -325,7 +332,8 @@ def run(ctx):
                 "mailbox with at least one separator line",
            exhaustive=False,
            constants={"K": K, "messages": len(msgs), "variants": nvar, "Mbox.MaxLen(theorem)": maxlen,
-                      "Mbox.MaxLen(replay)": lmax, "line_mailboxes": len(line_items)})
+                      "Mbox.MaxLen(replay)": lmax, "line_mailboxes": len(line_items),
+                      "writer_self_test_fallbacks": nfb})
     ev.assume("the Python standard library's email generator / mailbox.mbox writer produce conforming messages (writer = trusted base)",
               "date: only the instant is compared; header white space at fold points SP/HTAB; bodies modulo strip() and CRLF/LF "
               "(DC1-DC3 of Mail.tla, applied in the projection)",
@@ -393,7 +401,7 @@ def _worker_mail(job, wd):
                 e = {"a": "Eml", "obs": case.project(rs[0], supp_fn)}
         except Exception as ex:
             e = {"a": "Raised", "exc": _exc(ex)}
-        out.append({"eml": e, "mbox": None, "head": b[:400].decode("latin-1"),
+        out.append({"eml": e, "mbox": None, "head": b[:400].decode("latin-1"), "fallback": case.writer_fallback,
                     "eml_b64": base64.b64encode(b).decode() if len(b) < 20000 else None})
     # mailboxes: consecutive cases, 1..5 messages each, eol mode cycling
     rngm = random.Random(f"{job['seed']}:mbox:{job['w']}")
